@@ -67,8 +67,9 @@ structure Tables where
   mcast : List Rec
 deriving Repr, Inhabited
 
-/-- The dict `query` returns; an absent key is the empty list
-    (`info.setdefault(k, [])` is executed only on the first hit). -/
+/-- The four result lists of `query`, an absent key read as the empty list (a view that loses
+    "absent" vs "`[]`"; the dict itself is `InfoD` / `queryD` below, which is what the driver runs;
+    `C19L.queryD_eq` relates the two). -/
 structure Info where
   ipv4 : List Rec
   ipv6 : List Rec
@@ -90,6 +91,53 @@ def query (T : Tables) (ip : Addr) : Info :=
       ipv6u := scan ip T.ipv6u
       ipv4 := [], mcast := [] }
   else { ipv4 := [], ipv6 := [], ipv6u := [], mcast := [] }
+
+/-! ### the dict itself: which keys exist
+
+`query` builds `info = {}` and executes `info.setdefault(k, [])` only at a hit, so a registry without a hit
+has NO key in the returned dict (it is not mapped to `[]`).  `IPAddress.info` wraps the dict in
+`DictDotLookup`: `info[k]` is the list for a present key and `None` for an absent one
+(`__getitem__` returns `None` implicitly), `info.k` is the list for a present key and raises
+AttributeError for an absent one.  `InfoD` keeps the difference: `none` = key absent. -/
+
+/-- the dict `query` returns, key by key (`none` = key absent, `some l` = key present with list `l`) -/
+structure InfoD where
+  ipv4 : Option (List Rec)
+  ipv6 : Option (List Rec)
+  ipv6u : Option (List Rec)
+  mcast : Option (List Rec)
+deriving DecidableEq, Repr, Inhabited
+
+/-- `for key, record in dict.items(): if _within_bounds(ip, key): info.setdefault(k, []); info[k].append(record)`
+    with `acc` = the current state of `info.get(k)` -/
+def scanD (ip : Addr) : List Rec → Option (List Rec) → Option (List Rec)
+  | [], acc => acc
+  | r :: t, acc =>
+    if withinBounds ip r.key then
+      let cur := match acc with | none => [] | some l => l     -- info.setdefault(k, [])
+      scanD ip t (some (cur ++ [r]))                            -- info[k].append(record)
+    else scanD ip t acc
+
+/-- `iana.query(ip_addr)`, as the dict it is -/
+def queryD (T : Tables) (ip : Addr) : InfoD :=
+  if ip.ver = 4 then
+    { ipv4 := scanD ip T.ipv4 none
+      mcast := if isMulticast4 ip.val then scanD ip T.mcast none else none
+      ipv6 := none, ipv6u := none }
+  else if ip.ver = 6 then
+    { ipv6 := scanD ip T.ipv6 none
+      ipv6u := scanD ip T.ipv6u none
+      ipv4 := none, mcast := none }
+  else { ipv4 := none, ipv6 := none, ipv6u := none, mcast := none }
+
+/-- `DictDotLookup.__getitem__`: the value, `None` (here `none`) for an absent key; never raises -/
+def getItem (v : Option (List Rec)) : Option (List Rec) := v
+
+/-- attribute access `info.IPv4` on the `DictDotLookup`: AttributeError (`Err.other`) for an absent key -/
+def getAttr (v : Option (List Rec)) : R (List Rec) :=
+  match v with
+  | none => .error .other
+  | some l => .ok l
 
 /-! ## (b) index parsers -/
 
@@ -282,6 +330,50 @@ def parseRecord (data : List Char) : R Parsed := parseLines (splitNl data) ⟨no
     file order -/
 def lookupRows (index : List (Nat × Nat × Nat)) (key : Nat) : List (Nat × Nat) :=
   (index.filter (fun r => r.1 == key)).map (fun r => (r.2.1, r.2.2))
+
+/-! ### `load_index`
+
+`FileIndexer.update` writes every notified row with `csv.writer.writerow`: an `int` key as its
+decimal text, a `bytes` key (what the IAB parser leaves in `record[0]` when a record has no
+`(base 16)` line) as `str(b'…')` = `b'…'`.  `load_index` then does
+`(key, offset, size) = [int(_) for _ in row]` row by row: the decimal texts read back as the same
+ints, `int("b'00-50-C2'")` raises ValueError — the exception escapes `load_index` (and at import
+`load_indices`, so the package would not import). -/
+
+/-- the rows `load_index` has appended when it returns normally: `int(key)` of every row, in
+    file order; ValueError (`Err.value`) at the first key that is not an integer text -/
+def loadRows {K : Type} (key : K → R Int) : List (Row K) → R (List (Int × Nat × Nat))
+  | [] => .ok []
+  | (k, o, s) :: t => do
+    let n ← key k
+    let rest ← loadRows key t
+    pure ((n, o, s) :: rest)
+
+/-- the key column of a row the OUI parser notified: an `int`, written and read back in decimal -/
+def ouiKeyCell (n : Int) : R Int := .ok n
+
+/-- the key column of a row the IAB parser notified -/
+def iabKeyCell : IabKey → R Int
+  | .num n => .ok n
+  | .raw _ => .error .value
+
+def ouiLoad (rows : List (Row Int)) : R (List (Int × Nat × Nat)) := loadRows ouiKeyCell rows
+def iabLoad (rows : List (Row IabKey)) : R (List (Int × Nat × Nat)) := loadRows iabKeyCell rows
+
+/-- The loaded dict as `OUI(v)` / `IAB(v)` can see it: both constructors only look up identifiers
+    `0 <= v`, so rows under a negative key are unreachable; the others keep their order. -/
+def dictView (idx : List (Int × Nat × Nat)) : List (Nat × Nat × Nat) :=
+  idx.filterMap (fun r => if 0 ≤ r.1 then some (r.1.toNat, r.2.1, r.2.2) else none)
+
+/-- `create_index_from_registry(text, idx, OUIIndexParser); load_index(d, idx)` -/
+def ouiPipeline (text : List Nat) : R (List (Int × Nat × Nat)) := do
+  let rows ← ouiIndex text
+  ouiLoad rows
+
+/-- `create_index_from_registry(text, idx, IABIndexParser); load_index(d, idx)` -/
+def iabPipeline (text : List Nat) : R (List (Int × Nat × Nat)) := do
+  let rows ← iabIndex text
+  iabLoad rows
 
 /-- `fh.seek(offset); fh.read(size)` on the registry bytes -/
 def slice (text : List Nat) (off size : Nat) : List Nat := (text.drop off).take size
